@@ -56,6 +56,8 @@ def run_algo_property(pid, prop_file, tier, seed, want, level="proof"):
                 for B in Bs:
                     for mode in (0, 1):
                         fam.append(len(cases)); cases.append(A.ExecCase(tc.d, 0, tc.H, B, mode, tc.nums, 2, [63]))
+                        if rng.below(4) == 0:   # the same grouping reached through rebuild()
+                            fam.append(len(cases)); cases.append(A.ExecCase(tc.d, 0, tc.H, B, mode, tc.nums, 2, [63], rb=True))
                 groups.append(("grouping", fam))
         if "c12" in want:
             nfam = 30 if tier == "quick" else 1000
@@ -103,7 +105,7 @@ def run_algo_property(pid, prop_file, tier, seed, want, level="proof"):
             return " M2L " in line and " M2M " in line and line.count("[") > 6
 
         impl, model = vlib.differential(rep, binary, texts, sdir, "exec", canon=canon, oracle=oracle, nontrivial=nontrivial,
-                                        clause=lambda c: "exec:d%s" % c.split()[1])
+                                        clause=lambda c: "%s:d%s" % (c.split()[0], c.split()[1]))
         # exact batched sequence agreement (diagnostic only)
         nseq = 0
         for i, m in zip(impl, model):
@@ -167,4 +169,6 @@ def oracle_c12(tc, trace, calls, R, C):
         cur_ops.add(c.op)
         if c.op in ("M2M", "L2L", "M2L") and c.level < s:
             return "%s applied at level %d above the upper working level %d" % (c.op, c.level, s)
+        if c.op in ("P2M", "L2P") and tc.H - 1 < s:
+            return "%s applied at the leaf level %d, above the upper working level %d" % (c.op, tc.H - 1, s)
     return None
